@@ -4,7 +4,13 @@ import sys
 from verusrun import *
 u = sys.argv[1]
 repo = sys.argv[2] if len(sys.argv) > 2 else '/repo'
-r = run_unit(u, repo)
+import os
+# own generated file: a dev run must never race with a ./check that generates the same unit
+r = run_unit(u, repo, tag='_dev%d' % os.getpid())
+try:
+    os.remove(os.path.join(CACHE, 'gen', '%s_dev%d.rs' % (u, os.getpid())))
+except OSError:
+    pass
 print(u, r.status, r.reason, '%.1fs' % r.wall)
 vr = (r.verus_json or {}).get('verification-results')
 print(vr)
